@@ -109,6 +109,10 @@ def check(run):
     big = mdlcases.mesh(rng, [(0, 2, 0)], 0, 3, [rng.randrange(3) for _ in range(65541)], 1, 0)
     late = mdlcases.mesh(rng, [(0, 2, 0), (7, 8, 0)], 0, 4, [3, 2, 1, 0, 1, 2], 2, 65541)
     cases.append(parse_case(n, mdlcases.model(rng, 5, [[big, late]]), {"late mesh": "start index 65541"})); n += 1
+    # vertex streams of 64 KiB and more (count x stride does not fit 16 bits), followed by a second mesh
+    wide = mdlcases.mesh(rng, [(0, 2, 0), (7, 8, 1)], 0, 5462, [0, 1, 2, 5461, 5460, 3000], 1, 0)
+    after = mdlcases.mesh(rng, [(0, 2, 0), (3, 14, 0)], 0, 3, [2, 1, 0], 1, 6)
+    cases.append(parse_case(n, mdlcases.model(rng, 5, [[wide, after]]), {"wide stream": "5462 vertices x 12 bytes = 65544"})); n += 1
     fx = open(REPO + "/resources/tests/c0201e0038_top_zeroed.mdl", "rb").read()
     run.notes["fixture_bytes"] = len(fx)
     run.rule = ("every declaration of the bounded family enumerated by TLC (each supported (usage, type) pair alone on each stream, "
